@@ -66,6 +66,18 @@ func init() {
 			return resErr("construct", err)
 		}
 		a.Replace(np)
+		// … and again and again (key rotation): a list that Replace retires and recycles must not be the caller's slice
+		for k := 0; k < 3; k++ {
+			rot := mtlsPubs(jArr(in["replace"]))
+			if len(rot) > 1 {
+				rot = append(rot[k%len(rot):], rot[:k%len(rot)]...)
+			}
+			np2, err := mtls.ValidPublicKeysFromEd25519(rot...)
+			if err != nil {
+				return resErr("construct", err)
+			}
+			a.Replace(np2)
+		}
 		var bk, after []any
 		for _, k := range b.Keys() {
 			bk = append(bk, hexs(k))
@@ -211,5 +223,72 @@ func init() {
 			}
 		}
 		return viol, len(outs) > 1
+	})
+}
+
+// mtls.forged_tail: nothing verifies the self-signature of a peer certificate (the configuration skips chain
+// verification; TLS proves possession of the key it parses itself), so a peer can present a certificate that carries
+// ITS OWN key and whose trailing bytes (the signature field, the last 64 bytes of the encoding) are copied from a
+// listed peer's certificate.  On one long-lived allow-list: the listed peer is verified, then the forgery, then the
+// listed peer again; and on a second one in the opposite order.  The verdict depends on the key in the certificate only.
+func init() {
+	RegOp("mtls.forged_tail", func(in J) any {
+		in = normalise(in).(map[string]any)
+		listed := mtlsPubs(jArr(in["listed"]))
+		_, honestPriv := mtlsKey(jInt(in["honest"]))
+		_, roguePriv := mtlsKey(jInt(in["rogue"]))
+		honest := mtlsSelfSigned(honestPriv)
+		forged := append([]byte{}, mtlsSelfSigned(roguePriv)...)
+		if len(forged) < 64 || len(honest) < 64 {
+			return J{"harness-error": "certificate too short"}
+		}
+		copy(forged[len(forged)-64:], honest[len(honest)-64:])
+		verdicts := func(order [][]byte) ([]any, error) {
+			pk, err := mtls.ValidPublicKeysFromEd25519(listed...)
+			if err != nil {
+				return nil, err
+			}
+			out := []any{}
+			for _, c := range order {
+				out = append(out, pk.VerifyPeerCertificate()([][]byte{c}, nil) == nil)
+			}
+			return out, nil
+		}
+		a, err := verdicts([][]byte{honest, forged, honest, forged})
+		if err != nil {
+			return resErr("construct", err)
+		}
+		b, err := verdicts([][]byte{forged, honest, forged})
+		if err != nil {
+			return resErr("construct", err)
+		}
+		return resOK(J{"honest_first": a, "forged_first": b})
+	})
+	RegGen("C20", "mtls.forged_tail (implementation only): a certificate with an unlisted key whose last 64 bytes are copied from a listed peer's certificate, verified before and after that peer on one allow-list", func(g *G) {
+		for i := 0; i < g.N(20, 200); i++ {
+			listed := []any{}
+			for j := 1 + g.R.Intn(4); j > 0; j-- {
+				listed = append(listed, S(1+g.R.Intn(6)))
+			}
+			honest := jInt(listed[g.R.Intn(len(listed))])
+			g.EmitImpl(J{"op": "mtls.forged_tail", "listed": listed, "honest": honest, "rogue": 20 + g.R.Intn(10)}, "forged-tail")
+		}
+	})
+	RegMonitor("C20", func(op J, res any) (viol []Violation, nontrivial bool) {
+		if jStr(op["op"]) != "mtls.forged_tail" {
+			return nil, false
+		}
+		r := jObj(res)
+		if r["panic"] != nil {
+			return []Violation{{Sig: "C20/verify-panic", Desc: "verification panicked on a certificate with a copied signature field", Op: op, Res: res}}, true
+		}
+		o := jObj(r["ok"])
+		if o == nil {
+			return nil, false
+		}
+		if fmt.Sprint(jArr(o["honest_first"])) != fmt.Sprint([]any{true, false, true, false}) || fmt.Sprint(jArr(o["forged_first"])) != fmt.Sprint([]any{false, true, false}) {
+			viol = append(viol, Violation{Sig: "C20/verdict-depends-on-earlier-certificates", Desc: fmt.Sprintf("listed key / unlisted key with the listed peer's signature bytes: verdicts %v (want [true false true false]) and %v (want [false true false])", o["honest_first"], o["forged_first"]), Op: op, Res: res})
+		}
+		return viol, true
 	})
 }
